@@ -55,7 +55,7 @@ PROPS = {
         ],
     },
     'C11': {
-        'v_units': ['trap'],
+        'v_units': ['trap', 'trapsrun'],
         'k_units': [],
         'level': 'proof',
         'explanation': (
@@ -76,6 +76,11 @@ PROPS = {
             'well, their `for` loops checked as `while` loops over an assumed model of the map\'s mutable iterator: the table '
             'invariant holds again, command traps are reset with the old state remembered, ignores stay, internal dispositions '
             'are cleared except for SIGCHLD, SIGINT/SIGQUIT (asynchronous list) and enabled stoppers (job control) end up ignored. '
+            'Unit trapsrun (Verus): run_traps_for_caught_signals (yash-semantics/src/trap/signal.rs), the function the interpreter calls at '
+            'command boundaries, against a ghost monitor of its opaque calls: every caught signal the table hands out with a command action '
+            'gets exactly that command run for exactly that signal, once, before the next one is handed out; nothing is run that was not '
+            'handed out; other actions run nothing; nothing is run while another signal trap action is running; a divert from an action ends the '
+            'round with that divert. '
             'Not decided: take_caught_signal (iter_mut().find_map with a closure that returns a borrow; its per-record step '
             'handle_if_caught is proved), and WHEN traps run (command boundary, interrupted wait): that is scheduling of the '
             'async read-eval loop.'),
@@ -89,6 +94,7 @@ PROPS = {
             'Result::unwrap_or_default returns the Ok value (assumed)',
             'derived PartialEq is structural equality and derived Ord follows declaration order (Default < Ignore < Catch)',
             'source::Location is an opaque placeholder type; thiserror\'s #[from] expansion is written out by hand',
+            'unit trapsrun: take_caught_signal, run_trap (lexer + read-eval loop), poll_signals, sigint_has_default_action and in_trap are opaque calls observed by a ghost monitor; the table invariant "a command action has origin User" is assumed there (it is what set_action / enter_subshell of unit trap establish); await points dropped; termination not claimed',
         ],
     },
     'C08': {
